@@ -888,6 +888,14 @@ class Explorer:
                     l = list(cur)
                     l.insert(args[0], args[1])
                     val = tuple(l)
+                elif m == "remove" and len(args) == 1:
+                    l = list(cur)
+                    if args[0] in l:
+                        l.remove(args[0])
+                        val = tuple(l)
+                    else:
+                        new["__raise__"] = "ValueError"
+                        return new
                 elif m in MUTATORS:
                     val = UNKNOWN
                 else:
